@@ -369,6 +369,8 @@ def run_unit(u, wd, tier):
         obligations.append(res)
         if st == "SUCCESS":
             r["discharged"] += 1
+        elif st == "FAILURE" and ("unwinding assertion" in desc or "recursion unwinding assertion" in desc):
+            unknown.append((res.get("property") or "") + " (unwinding bound of the unit too small: undecided, not a violation)")
         elif st == "FAILURE":
             loc = res.get("sourceLocation", {})
             r["failed"].append({"obligation": res.get("property"), "description": desc,
